@@ -140,6 +140,7 @@ def wfM : List Micro → Bool
     x.mAllowed && wfM rest &&
     (match x with
      | .storeReloading _ => anyRelM rest && anyClrM rest
+     | .waitReady => anyRelM rest
      | .storePF => anyRd rest
      | .finishFailHead => anyRd rest
      | _ => true)
@@ -464,8 +465,16 @@ theorem good_step {s s' : St} (h : Good s) (a : Act) (hs : step s a = some s') :
     · cases hs
   case swallow k =>
     split at hs
-    · simp only [Option.some.injEq] at hs; subst hs; right
-      exact ⟨tok, sup, wfw, wfm, rel1, store, note, busy, act⟩
+    · rename_i rest hm
+      simp only [Option.some.injEq] at hs; subst hs; right
+      have hwf := wfm
+      simp only [hm, wfM, Bool.and_eq_true] at hwf
+      have hp : s.pending = true := by
+        have h1 := hwf.2
+        cases hpd : s.pending
+        · simp only [hm, anyRelM_cons, h1, Bool.or_true, hpd, Bool.toNat_true, Bool.toNat_false] at tok; omega
+        · rfl
+      refine ⟨?_, ?_, ?_, ?_, ?_, ?_, ?_, ?_, ?_⟩ <;> simp_all [tokens, owed]
     · cases hs
   case term =>
     split at hs
